@@ -253,3 +253,748 @@ SEGS["v4ctor"] = (lambda th: v4_parts(OCT_T_CTOR if th else OCT_Q),
                   lambda part, th: v4_cases(part, OCT_T_CTOR if th else OCT_Q), chk_v4ctor)
 SEGS["v4net"] = (lambda th: v4_parts(OCT_T_NET if th else OCT_Q),
                  lambda part, th: v4net_cases(part, OCT_T_NET if th else OCT_Q), chk_v4net)
+
+
+# ------------------------------------------------------------------------------------
+# IPv6 value lattice
+# ------------------------------------------------------------------------------------
+V6_EXTRA = [[0x2001, 0xdb8, 0x85a3, 0, 0, 0x8a2e, 0x370, 0x7334], [0x2001, 0xdb8, 0, 0, 1, 0, 0, 1],
+            [1, 0, 0, 2, 0, 0, 0, 3], [0xfe80, 0, 0, 0, 0xba8d, 0x12ff, 0xfe2a, 0xdd6e], [0xff02, 0, 0, 0, 0, 0, 0, 1],
+            [0, 0, 0, 0, 0, 0xffff, 0x0102, 0x0304], [0, 0, 0, 0, 0, 0xffff, 0, 0], [0, 0, 0, 0, 0, 0xffff, 0xffff, 0xffff],
+            [0, 0, 0, 0, 0, 0xffff, 0x7f00, 0x0001], [0, 0, 0, 0, 0, 0, 0x0102, 0x0304], [0, 0, 0, 0, 0xffff, 0, 0x0102, 0x0304],
+            [0x64, 0xff9b, 0, 0, 0, 0, 0xc000, 0x0221], [0x2000, 0, 0, 0, 0, 0, 0, 0], [0x3fff, 0xffff, 0, 0, 0, 0, 0, 1],
+            [0xfc00, 0, 0, 0, 0, 0, 0, 1], [0xfdff, 0, 0, 0, 0, 0, 0, 1], [0xfebf, 0xffff, 0, 0, 0, 0, 0, 1],
+            [0xfec0, 0, 0, 0, 0, 0, 0, 1], [0x00ff, 0, 0, 0, 0, 0, 0, 1], [0x0db8, 0x00a0, 0x000f, 0x1000, 0x0100, 0x0010, 0x0001, 0]]
+
+def v6_parts (th):
+  if th: return [["tern", a, b] for a in range(3) for b in range(3)] + [["pat", f] for f in (0xffff, 0x0db8)] + [["extra"]]
+  return [["pat", f] for f in (1, 0xabcd, 0xffff)] + [["extra"]]
+
+def v6_values (part):
+  if part[0] == "pat":
+    for pat in range(256):
+      yield [part[1] if pat & (0x80 >> i) else 0 for i in range(8)]
+  elif part[0] == "tern":
+    tok = (0, 1, 0xabcd)
+    for rest in itertools.product(tok, repeat=6):
+      yield [tok[part[1]], tok[part[2]]] + list(rest)
+  else:
+    for g in V6_EXTRA: yield list(g)
+
+
+def zero_runs (groups):
+  out = []; i = 0
+  while i < 8:
+    if groups[i] == 0:
+      j = i
+      while j < 8 and groups[j] == 0: j += 1
+      out.append((i, j)); i = j
+    else: i += 1
+  return out
+
+
+def chk_v6val (case, k):
+  g = case; n = R.v6_int(g); raw = R.v6_raw(n)
+  I6 = A.IPAddr6
+  full = ":".join("%x" % x for x in g)
+  texts = [("full", full), ("full-padded", ":".join("%04x" % x for x in g)), ("full-upper", full.upper()),
+           ("mixed", ":".join("%x" % x for x in g[:6]) + ":" + R.v4_text(n & 0xffffffff)),
+           ("rfc5952", R.v6_fmt(n))]
+  # every legal placement of '::' over (part of) a zero run
+  for (i, j) in zero_runs(g):
+    for s in range(i, j):
+      for e in range(s + 1, j + 1):
+        texts.append(("compressed", ":".join("%x" % x for x in g[:s]) + "::" + ":".join("%x" % x for x in g[e:])))
+        if e <= 6:
+          texts.append(("compressed-mixed", ":".join("%x" % x for x in g[:s]) + "::" + ":".join("%x" % x for x in g[e:6])
+                        + (":" if e < 6 else "") + R.v4_text(n & 0xffffffff)))
+  for form, t in texts:
+    if R.v6_parse(t) != n: raise RuntimeError("harness: reference does not read %r as %x" % (t, n))
+    k.evals += 1; k.calls += 1
+    try:
+      r = I6(t).raw
+    except Exception as e:
+      cls = R.v6_text_class(t)
+      k.bad("ipv6-text-rejects-valid:" + cls, "IPAddr6(%r) raised %s: %s; RFC 4291 reads it as %s" % (t, type(e).__name__, e, R.v6_fmt(n)))
+      k.obs.append("rej"); continue
+    if r != raw:
+      k.bad("ipv6-text-value:" + form, "IPAddr6(%r).raw = %s, expected %s" % (t, r.hex(), raw.hex()))
+  # binary forms
+  k.eq("ipv6-ctor:raw-flag", ("IPAddr6(%r, raw=True).raw", raw), raw, lambda: I6(raw, raw=True).raw)
+  k.eq("ipv6-ctor:from_raw", ("IPAddr6.from_raw(%r).raw", raw), raw, lambda: I6.from_raw(raw).raw)
+  k.eq("ipv6-ctor:raw-kw", ("IPAddr6(raw=%r).raw", raw), raw, lambda: I6(raw=raw).raw)
+  k.eq("ipv6-ctor:bytearray", ("IPAddr6(bytearray(%r)).raw", raw), raw, lambda: I6(bytearray(raw)).raw)
+  k.eq("ipv6-ctor:copy", ("IPAddr6(IPAddr6.from_raw(%r)).raw", raw), raw, lambda: I6(I6.from_raw(raw)).raw)
+  k.eq("ipv6-from_num", ("IPAddr6.from_num(0x%x) as (type, raw)", n), ("IPAddr6", raw),
+       lambda: (lambda r: (type(r).__name__, r if isinstance(r, bytes) else r.raw))(I6.from_num(n)))
+  okk, a = k.get("ipv6-ctor:from_raw", ("IPAddr6.from_raw(%r)", raw), I6.from_raw, raw)
+  if not okk: return
+  canon = R.v6_canonical(n)
+  k.eq("ipv6-observe:num", ("IPAddr6('%s').num", canon), n, lambda: a.num)
+  k.eq("ipv6-observe:len", ("len(IPAddr6('%s'))", canon), 16, len, a)
+  k.eq("ipv6-observe:str", ("str(IPAddr6.from_raw(%s)) (RFC 5952)", raw.hex()), canon, str, a)
+  k.eq("ipv6-observe:repr", ("repr(IPAddr6.from_raw(%s))", raw.hex()), "IPAddr6('%s')" % canon, repr, a)
+  mapped = R.v6_is_mapped(n)
+  for zd in (True, False):
+    for sd in (True, False):
+      for v4 in (None, True, False):
+        want = R.v6_fmt(n, zd, sd, mapped if v4 is None else v4)
+        okk, s = k.get("ipv6-to_str", ("IPAddr6('%s').to_str(%s,%s,%s)", canon, zd, sd, v4), a.to_str, zd, sd, v4)
+        if not okk: continue
+        k.evals += 1
+        if s != want:
+          opt = "default" if (zd, sd, v4) == (True, True, None) else \
+                "%s%s%s" % ("" if zd else "-nozerodrop", "" if sd else "-nosectiondrop", "" if v4 is None else "-ipv4=%s" % v4)
+          k.bad("ipv6-to_str:" + opt.lstrip("-"), "IPAddr6.from_raw(%s).to_str(zero_drop=%s, section_drop=%s, ipv4=%s) = %r, expected %r"
+                % (raw.hex(), zd, sd, v4, s, want))
+        k.obs.append(s)
+        k.eq("ipv6-roundtrip", ("IPAddr6(%r).raw (text printed by to_str(%s,%s,%s))", s, zd, sd, v4), raw, lambda: I6(s).raw)
+  okk, b = k.get("ipv6-roundtrip", ("IPAddr6(str(a)) for a=%s", canon), lambda: I6(str(a)))
+  if okk:
+    k.eq("ipv6-roundtrip:eq", ("IPAddr6(str(a)) == a for a=%s", canon), True, lambda: b == a)
+    k.eq("ipv6-roundtrip:hash", ("hash(IPAddr6(str(a))) == hash(a) for a=%s", canon), True, lambda: hash(b) == hash(a))
+  # well-known ranges (RFC 4291 2.4, 2.5.5; RFC 4193) = network membership with fixed networks
+  for name, net, bits in (("is_multicast", 0xff << 120, 8), ("is_global_unicast", 0x2 << 124, 3),
+                          ("is_unique_local_unicast", 0xfc << 120, 7), ("is_link_unicast", 0xfe80 << 112, 10),
+                          ("is_ipv4_compatible", 0, 96), ("is_ipv4_mapped", 0xffff << 32, 96)):
+    k.eq("ipv6-net:" + name, ("IPAddr6('%s').%s", canon, name), R.v6_contains(net, bits, n), lambda: getattr(a, name))
+  low = ("IPAddr", R.v4_raw(n & 0xffffffff))
+  k.eq("ipv6-observe:ipv4", ("IPAddr6('%s').ipv4", canon), low, lambda: raw_of(a.ipv4))
+  if (n >> 48) == 0:       # pox's own notion of "IPv4ish" (::/80); to_ipv4() must then give the low 32 bits
+    k.eq("ipv6-observe:to_ipv4", ("IPAddr6('%s').to_ipv4()", canon), low, lambda: raw_of(a.to_ipv4()))
+
+
+V6_OTHER = [0, 0x2001 << 112, 0xfe80 << 112, 1 << 127, 0xffff << 32, (1 << 128) - 2]
+
+def v6net_cases (part, th):
+  for g in v6_values(part):
+    for b in range(129):
+      yield g + [b]
+
+def _pc6 (f, *a, **kw):
+  r = f(*a, **kw)
+  return (raw_of(r[0]), r[1])
+
+def chk_v6net (case, k):
+  g = case[:8]; b = case[8]
+  n = R.v6_int(g); M = R.v6_mask(b); N = n & M
+  at, nt, mt = R.v6_fmt(n), R.v6_fmt(N), R.v6_fmt(M)
+  I6 = A.IPAddr6
+  okk, a = k.get("ipv6-ctor:from_raw", ("IPAddr6.from_raw(%s)", at), I6.from_raw, R.v6_raw(n))
+  if not okk: return
+  netobj = I6.from_raw(R.v6_raw(N))
+  inside = R.v6_contains(N, b, n)
+  cidr = "%s/%d" % (nt, b)
+  k.eq("ipv6-net:in_network-str", ("IPAddr6('%s').in_network('%s')", at, cidr), inside, a.in_network, cidr)
+  k.eq("ipv6-net:in_network-args-bits", ("IPAddr6('%s').in_network('%s', %d)", at, nt, b), inside, a.in_network, nt, b)
+  k.eq("ipv6-net:in_network-args-bits", ("IPAddr6('%s').in_network(IPAddr6('%s'), %d)", at, nt, b), inside, a.in_network, netobj, b)
+  k.eq("ipv6-net:in_network-args-mask", ("IPAddr6('%s').in_network('%s', '%s')", at, nt, mt), inside, a.in_network, nt, mt)
+  k.eq("ipv6-net:in_network-str-mask", ("IPAddr6('%s').in_network('%s/%s')", at, nt, mt), inside, a.in_network, nt + "/" + mt)
+  k.eq("ipv6-net:in_network-tuple", ("IPAddr6('%s').in_network(('%s', %d))", at, nt, b), inside, a.in_network, (nt, b))
+  k.eq("ipv6-net:in_network-tuple", ("IPAddr6('%s').in_network((IPAddr6('%s'), %d))", at, nt, b), inside, a.in_network, (netobj, b))
+  others = [x & M for x in V6_OTHER]
+  if b >= 1:
+    others.append(N ^ (1 << (128 - b)))
+    others.append(N ^ (1 << 127))
+  for X in others:
+    want = R.v6_contains(X, b, n)
+    xt = R.v6_fmt(X)
+    k.eq("ipv6-net:in_network-str", ("IPAddr6('%s').in_network('%s/%d')", at, xt, b), want, a.in_network, "%s/%d" % (xt, b))
+    k.eq("ipv6-net:in_network-tuple", ("IPAddr6('%s').in_network(('%s', %d))", at, xt, b), want, a.in_network, (xt, b))
+  want = (("IPAddr6", R.v6_raw(N)), b)
+  k.eq("ipv6-net:parse_cidr", ("IPAddr6.parse_cidr('%s')", cidr), want, _pc6, I6.parse_cidr, cidr)
+  k.eq("ipv6-net:parse_cidr-mask", ("IPAddr6.parse_cidr('%s/%s')", nt, mt), want, _pc6, I6.parse_cidr, nt + "/" + mt)
+  hostcidr = "%s/%d" % (at, b)
+  k.eq("ipv6-net:parse_cidr-allow_host", ("IPAddr6.parse_cidr('%s', allow_host=True)", hostcidr), (("IPAddr6", R.v6_raw(n)), b),
+       _pc6, I6.parse_cidr, hostcidr, allow_host=True)
+  if n != N:
+    k.rej("ipv6-net:parse_cidr-host-bits-accepted", ("IPAddr6.parse_cidr('%s') (host bits set)", hostcidr), I6.parse_cidr, hostcidr)
+  # prefix length <-> netmask
+  okk, r = k.get("ipv6-net:cidr_to_netmask", ("IPAddr6.cidr_to_netmask(%d)", b), I6.cidr_to_netmask, b)
+  if okk:
+    k.evals += 1
+    if type(r) is not I6:
+      k.bad("ipv6-from_num" if type(r) is bytes else "ipv6-net:cidr_to_netmask",
+            "IPAddr6.cidr_to_netmask(%d) returned a %s (%r), documented to return an IPAddr6" % (b, type(r).__name__, r))
+    rv = r if isinstance(r, bytes) else r.raw
+    if rv != R.v6_raw(M):
+      k.bad("ipv6-net:cidr_to_netmask", "IPAddr6.cidr_to_netmask(%d) = %s, expected %s" % (b, rv.hex(), R.v6_raw(M).hex()))
+  k.eq("ipv6-net:netmask_to_cidr", ("IPAddr6.netmask_to_cidr('%s')", mt), b, I6.netmask_to_cidr, mt)
+  k.eq("ipv6-net:netmask_to_cidr", ("IPAddr6.netmask_to_cidr(IPAddr6('%s'))", mt), b, lambda: I6.netmask_to_cidr(I6.from_raw(R.v6_raw(M))))
+  if b == 128:
+    k.eq("ipv6-net:parse_cidr", ("IPAddr6.parse_cidr('%s')", at), (("IPAddr6", R.v6_raw(n)), 128), _pc6, I6.parse_cidr, at)
+    mb = R.mask_bits(n, 128)
+    if mb is None:
+      k.rej("ipv6-net:netmask_to_cidr-accepts-noncontiguous", ("IPAddr6.netmask_to_cidr('%s')", at), I6.netmask_to_cidr, at)
+      k.rej("ipv6-net:parse_cidr-accepts-noncontiguous", ("IPAddr6.parse_cidr('::/%s')", at), I6.parse_cidr, "::/" + at)
+    else:
+      k.eq("ipv6-net:netmask_to_cidr", ("IPAddr6.netmask_to_cidr('%s')", at), mb, I6.netmask_to_cidr, at)
+
+
+SEGS["v6val"] = (v6_parts, lambda part, th: v6_values(part), chk_v6val)
+SEGS["v6net"] = (v6_parts, v6net_cases, chk_v6net)
+
+
+# ------------------------------------------------------------------------------------
+# IPv6 text grammar: every string of 0..9 groups, '::' at each position or absent, +- IPv4 tail
+# ------------------------------------------------------------------------------------
+TOK_Q = ["0", "1", "ffff"]
+TOK_T = ["0", "1", "ffff", "abcd"]
+V4TAIL = "1.2.3.4"
+
+def v6text_parts (th):
+  ntok = len(TOK_T if th else TOK_Q)
+  parts = []
+  for tail in (0, 1):
+    for n in range(10):
+      if n >= 6: parts += [[n, tail, i, j] for i in range(ntok) for j in range(ntok)]
+      else: parts.append([n, tail])
+  return parts
+
+def v6text_cases (part, th):
+  tok = TOK_T if th else TOK_Q
+  n, tail = part[0], part[1]
+  pre = [tok[i] for i in part[2:]]
+  for rest in itertools.product(tok, repeat=n - len(pre)):
+    e = pre + list(rest) + ([V4TAIL] if tail else [])
+    yield [":".join(e)]
+    for p in range(len(e) + 1):
+      yield [":".join(e[:p]) + "::" + ":".join(e[p:])]
+
+def chk_v6text (case, k):
+  s = case[0]
+  want = R.v6_parse(s)
+  k.evals += 1; k.calls += 1
+  try:
+    a = A.IPAddr6(s); got = a.raw
+  except Exception as e:
+    if want is not None:
+      cls = R.v6_text_class(s)
+      k.bad("ipv6-text-rejects-valid:" + cls, "IPAddr6(%r) raised %s: %s; RFC 4291 reads it as %s" % (s, type(e).__name__, e, R.v6_fmt(want)))
+      k.obs.append(("rej-valid", cls))
+    else:
+      k.obs.append(("rej", s.count(":"), "::" in s, "." in s))
+    return
+  if want is None:
+    cls = R.v6_text_class(s)
+    k.bad("ipv6-text-accepts:" + cls, "IPAddr6(%r) is accepted and read as %s; it is not a valid RFC 4291 text" % (s, _show(a)))
+    k.obs.append(("acc-invalid", cls))
+    return
+  if got != R.v6_raw(want):
+    k.bad("ipv6-text-value:grammar", "IPAddr6(%r).raw = %s, expected %s" % (s, got.hex(), R.v6_raw(want).hex()))
+  # accepted: printing gives the canonical text, which re-parses to the same address
+  canon = R.v6_canonical(want)
+  k.eq("ipv6-observe:str", ("str(IPAddr6(%r))", s), canon, str, a)
+  k.eq("ipv6-roundtrip", ("IPAddr6(str(IPAddr6(%r))).raw", s), R.v6_raw(want), lambda: A.IPAddr6(str(a)).raw)
+  k.obs[:] = [("ok", canon)]
+
+SEGS["v6text"] = (v6text_parts, v6text_cases, chk_v6text)
+
+
+# ------------------------------------------------------------------------------------
+# malformed input (unambiguous): must be rejected, never mis-parsed
+# ------------------------------------------------------------------------------------
+JUNK6 = ["0x1", "+1", "-0", "-1", " 1", "1 ", "1_0", "00001", "10000", "fffff", "g", "1g", "1.2", "0001:", "1/8"]
+BASE6 = ["1:2:3:4:5:6:7:8", "1::8", "::1", "1::", "::ffff:1.2.3.4", "1:2:3:4:5:6:1.2.3.4", "1:2::7:8"]
+BADTAIL = ["1.2.3", "1.2.3.4.5", "256.2.3.4", "1.2.3.-4", "1..3.4", "1.2.3.4 x", "1.2.3.4x", ".1.2.3", "1.2.3.", "a.b.c.d"]
+
+def bad_cases (part, th):
+  kind = part[0]
+  if kind == "v6":
+    seen = set()
+    for base in BASE6:
+      el = base.split(":")
+      for i, x in enumerate(el):
+        if x == "" or "." in x: continue
+        for j in JUNK6:
+          s = ":".join(el[:i] + [j] + el[i + 1:])
+          if s not in seen: seen.add(s); yield ["v6", s]
+      for s in (" " + base, base + " ", base + "/64", base + ":", ":" + base, base + "\n", base + "::", "::" + base, base.replace(":", ":::", 1)):
+        if s not in seen and R.v6_parse(s) is None: seen.add(s); yield ["v6", s]
+    for t in BADTAIL:
+      for pre in ("::ffff:", "::", "1:2:3:4:5:6:", "1::"):
+        yield ["v6", pre + t]
+    for s in ("", ":", "1", "1:2", "::g", "1:2:3:4:5:6:7:8:9", "::1::", "1::2::3", "1.2.3.4", "::1.2.3.4:5", "1:2:3:4:5:6:7:1.2.3.4", "12345::", "::-1"):
+      yield ["v6", s]
+    for s, cls in (("1::/129", "prefix-out-of-range"), ("1::/-1", "prefix-out-of-range"), ("1::/", "malformed-cidr"),
+                   ("1::/x", "malformed-cidr"), ("1::/64/8", "junk-after-prefix"), ("1::/ffff::/16", "junk-after-prefix"),
+                   ("1::/ffff:0:ffff::", "noncontiguous-netmask"), ("1::/1.2.3.4", "malformed-cidr"), ("/64", "malformed-cidr"),
+                   ("1::/64 x", "junk-after-prefix")):
+      yield ["v6cidr", s, cls]
+    for ln in (0, 1, 4, 15, 17, 32):
+      yield ["v6raw", ln]
+  elif kind == "v4":
+    for pos in range(4):
+      for j in ("256", "999", "-1", "", "a", "1a", "+1", "1e1", "٣"):
+        el = ["1", "2", "3", "4"]; el[pos] = j
+        yield ["v4", ".".join(el)]
+    for s in ("", ".", "1.2.3.4.5", "1.2.3.4.", ".1.2.3.4", "1.2.3.4x", "1.2.3.4 x", "x1.2.3.4", " 1.2.3.4", "1.2.3.4/8", "1,2,3,4", "1.2.3.4:80", "::1"):
+      yield ["v4", s]
+    for s, cls in (("1.0.0.0/33", "prefix-out-of-range"), ("1.0.0.0/64", "prefix-out-of-range"), ("1.0.0.0/-1", "prefix-out-of-range"),
+                   ("1.0.0.0/", "malformed-cidr"), ("1.0.0.0/x", "malformed-cidr"), ("1.0.0.0/8/9", "junk-after-prefix"),
+                   ("1.0.0.0/8x", "junk-after-prefix"), ("1.0.0.0/255.0.0.0/8", "junk-after-prefix"), ("1.0.0.0/8 x", "junk-after-prefix"),
+                   ("1.0.0.0/255.0.255.0", "noncontiguous-netmask"), ("1.0.0.0/0.255.0.0", "noncontiguous-netmask"),
+                   ("1.0.0.0/255.255.255.256", "malformed-cidr"), ("/8", "malformed-cidr"), ("256.0.0.0/8", "malformed-cidr"),
+                   ("1.0.0.0//8", "malformed-cidr"), ("1.0.0.0.0/8", "malformed-cidr")):
+      yield ["v4cidr", s, cls]
+    for ln in (0, 1, 2, 3, 5, 8):
+      yield ["v4raw", ln]
+    for v in ("None", "1.5", "[1,2,3,4]"):
+      yield ["v4type", v]
+  elif kind == "eth":
+    std = ["00", "11", "22", "33", "44", "55"]
+    for sep in (":", "-"):
+      for pos in range(6):
+        for j in ("gg", "1g", "+1", " 1", "1 ", "-1", "0x", "1_", "١١"):
+          el = list(std); el[pos] = j
+          yield ["eth", sep.join(el)]
+      yield ["eth", sep.join(std[:5])]
+      yield ["eth", sep.join(std + ["66"])]
+      yield ["eth", sep.join(std) + sep]
+      yield ["eth", sep + sep.join(std)]
+      yield ["eth", sep.join(std) + "0"]
+    for s in ("00-11:22-33:44-55", "00:11:22:33:44-55", "00.11.22.33.44.55", "00:11:22:33:4455", "0011:2233:4455:66", "00 11 22 33 44 55"):
+      yield ["eth", s]
+    for pos in range(6):
+      for j in ("100", "fff", "0x1", "+1", " 1", "-1", "g", "", "1_0"):
+        el = ["1", "2", "3", "4", "5", "a"]; el[pos] = j
+        yield ["eth", ":".join(el)]
+    for s in ("+12233445566", " 12233445566", "gg2233445566", "0x2233445566", "00112233445", "0011223344556", "-01122334455",
+              "", "0", "00:11", "0011223344556677"):
+      yield ["eth", s]
+    for ctor in ("tuple", "list", "bytearray"):
+      for ln in (0, 1, 3, 5, 7, 8):
+        yield ["ethseq", ctor, ln]
+    for ln in (0, 1, 5, 7, 8, 16):
+      yield ["ethraw", ln]
+    for v in ("(1,2,3,4,5,256)", "(1,2,3,4,5,-1)", "5", "1.5"):
+      yield ["ethtype", v]
+  elif kind == "dpid":
+    for s in ("", "zz", "1|x", "|1", "00-00-00-00-00-0g", "00-00-00-00-00-01|65536", "00-00-00-00-00-01|99999", "1ffffffffffffffff"):
+      yield ["dpid", s]
+
+
+def eth_bad_class (s):
+  hexd = "0123456789abcdefABCDEF"
+  if any(c not in hexd + ":-" for c in s) or (s.count("-") and s.count(":")) or s.startswith("-") and len(s) == 12:
+    if s.count("-") and s.count(":"): return "mixed-separators"
+    return "non-hex-characters"
+  for sep in (":", "-"):
+    if sep in s:
+      el = s.split(sep)
+      if len(el) != 6: return "wrong-group-count"
+      if any(len(x) > 2 for x in el): return "group-out-of-range"
+      if any(x == "" for x in el): return "empty-group"
+  return "wrong-length"
+
+def chk_bad (case, k):
+  kind = case[0]
+  if kind == "v6":
+    s = case[1]
+    if R.v6_parse(s) is not None: raise RuntimeError("harness: %r is valid" % s)
+    k.rej("ipv6-text-accepts:" + R.v6_text_class(s), ("IPAddr6(%r)", s), lambda: A.IPAddr6(s))
+  elif kind == "v6cidr":
+    s = case[1]
+    cls = case[2]
+    k.rej("ipv6-cidr-accepts:" + cls, ("IPAddr6.parse_cidr(%r, allow_host=True)", s), lambda: A.IPAddr6.parse_cidr(s, allow_host=True))
+    k.rej("ipv6-cidr-accepts:" + cls, ("IPAddr6('::').in_network(%r)", s), lambda: A.IPAddr6("::").in_network(s))
+  elif kind == "v6raw":
+    b = bytes(range(1, case[1] + 1))
+    k.rej("ipv6-binary-accepts:wrong-length", ("IPAddr6(%r, raw=True)", b), lambda: A.IPAddr6(b, raw=True))
+    k.rej("ipv6-binary-accepts:wrong-length", ("IPAddr6.from_raw(%r)", b), lambda: A.IPAddr6.from_raw(b))
+    k.rej("ipv6-binary-accepts:wrong-length", ("IPAddr6(bytearray(%r))", b), lambda: A.IPAddr6(bytearray(b)))
+  elif kind == "v4":
+    s = case[1]
+    cls = "trailing-junk-after-whitespace" if " " in s.strip() and s[0] != " " else "malformed-dotted-quad"
+    k.rej("ipv4-text-accepts:" + cls, ("IPAddr(%r)", s), lambda: A.IPAddr(s))
+    if s:
+      k.rej("ipv4-text-accepts:" + cls, ("IPAddr(%r)", s.encode()), lambda: A.IPAddr(s.encode()))
+  elif kind == "v4cidr":
+    s = case[1]
+    cls = case[2]
+    k.rej("ipv4-cidr-accepts:" + cls, ("parse_cidr(%r, allow_host=True)", s), lambda: A.parse_cidr(s, allow_host=True))
+    k.rej("ipv4-cidr-accepts:" + cls, ("IPAddr('0.0.0.0').inNetwork(%r)", s), lambda: A.IPAddr("0.0.0.0").inNetwork(s))
+  elif kind == "v4raw":
+    b = bytes(range(1, case[1] + 1))
+    k.rej("ipv4-binary-accepts:wrong-length", ("IPAddr(%r)", b), lambda: A.IPAddr(b))
+    k.rej("ipv4-binary-accepts:wrong-length", ("IPAddr(bytearray(%r))", b), lambda: A.IPAddr(bytearray(b)))
+  elif kind == "v4type":
+    v = eval(case[1])
+    k.rej("ipv4-ctor-accepts:wrong-type", ("IPAddr(%s)", case[1]), lambda: A.IPAddr(v))
+  elif kind == "eth":
+    s = case[1]
+    cls = eth_bad_class(s)
+    k.rej("eth-text-accepts:" + cls, ("EthAddr(%r)", s), lambda: A.EthAddr(s))
+    if len(s.encode()) != 6:
+      k.rej("eth-text-accepts:" + cls, ("EthAddr(%r)", s.encode()), lambda: A.EthAddr(s.encode()))
+  elif kind == "ethseq":
+    vals = list(range(1, case[2] + 1))
+    v = {"tuple": tuple, "list": list, "bytearray": bytearray}[case[1]](vals)
+    k.rej("eth-binary-accepts:wrong-length-sequence", ("EthAddr(%r)", v), lambda: A.EthAddr(v))
+  elif kind == "ethraw":
+    b = bytes([0x80 + i for i in range(case[1])])
+    k.rej("eth-binary-accepts:wrong-length-raw", ("EthAddr(%r)", b), lambda: A.EthAddr(b))
+  elif kind == "ethtype":
+    v = eval(case[1])
+    k.rej("eth-ctor-accepts:bad-value", ("EthAddr(%s)", case[1]), lambda: A.EthAddr(v))
+  elif kind == "dpid":
+    s = case[1]
+    cls = "value-out-of-range" if s.endswith(("65536", "99999", "1ffffffffffffffff")) else "malformed"
+    k.evals += 1; k.calls += 1
+    try:
+      r = U.str_to_dpid(s)
+    except Exception:
+      k.obs.append("rej"); return
+    k.obs.append("acc")
+    k.bad("dpid-text-accepts:" + cls, "str_to_dpid(%r) was accepted and gave %r%s" % (s, r, "" if 0 <= r < (1 << 64) else " (not a 64-bit id)"))
+
+SEGS["bad"] = (lambda th: [["v6"], ["v4"], ["eth"], ["dpid"]], bad_cases, chk_bad)
+
+
+# ------------------------------------------------------------------------------------
+# Ethernet addresses
+# ------------------------------------------------------------------------------------
+def eth_parts (th):
+  if th: return [["cross", m, hi] for m in (0, 1) for hi in range(16)] + [["lat6", i] for i in range(6)] + [["near"]]
+  return [["first"], ["last"], ["near"]] + [["lat4", i] for i in range(4)]
+
+MID = ([0x23, 0x45, 0x67, 0x89], [0x80, 0xc2, 0x00, 0x00])
+
+def eth_cases (part, th):
+  kind = part[0]
+  if kind == "first":
+    for f in range(256):
+      yield [f, 0x23, 0x45, 0x67, 0x89, 0xab]
+      yield [f, 0x80, 0xc2, 0x00, 0x00, 0x05]
+  elif kind == "last":
+    for l in range(256):
+      yield [0x01, 0x80, 0xc2, 0x00, 0x00, l]
+      yield [0x00, 0x23, 0x45, 0x67, 0x89, l]
+  elif kind == "near":
+    for l in (0x00, 0x0f, 0x10, 0xff):
+      for v in ([0x01, 0x80, 0xc2, 0x00, 0x01, l], [0x01, 0x80, 0xc2, 0x01, 0x00, l], [0x01, 0x80, 0xc3, 0x00, 0x00, l],
+                [0x01, 0x81, 0xc2, 0x00, 0x00, l], [0x00, 0x80, 0xc2, 0x00, 0x00, l], [0x03, 0x80, 0xc2, 0x00, 0x00, l],
+                [0xff, 0xff, 0xff, 0xff, 0xff, l], [l, 0xff, 0xff, 0xff, 0xff, 0xff]):
+        yield v
+  elif kind == "lat4":
+    vals = (0x00, 0x0a, 0x10, 0xff)
+    for rest in itertools.product(vals, repeat=5): yield [vals[part[1]]] + list(rest)
+  elif kind == "lat6":
+    vals = (0x00, 0x01, 0x0f, 0x10, 0x80, 0xff)
+    for rest in itertools.product(vals, repeat=5): yield [vals[part[1]]] + list(rest)
+  elif kind == "cross":
+    for f in range(part[2] * 16, part[2] * 16 + 16):
+      for l in range(256):
+        yield [f] + MID[part[1]] + [l]
+
+def chk_eth (case, k):
+  bs = case; raw = bytes(bs)
+  E = A.EthAddr
+  colon = R.eth_text(bs, ":"); hyph = R.eth_text(bs, "-"); bare = R.eth_text(bs, "")
+  short = ":".join("%x" % b for b in bs)
+  forms = [("colon", colon), ("colon-upper", colon.upper()), ("hyphen", hyph), ("hyphen-upper", hyph.upper()), ("bare-hex", bare),
+           ("bare-hex-upper", bare.upper()), ("colon-bytes", colon.encode()), ("hyphen-bytes", hyph.encode()), ("bare-hex-bytes", bare.encode()),
+           ("raw-bytes", raw), ("tuple", tuple(bs)), ("list", list(bs)), ("bytearray", bytearray(raw))]
+  for name, v in forms:
+    k.eq("eth-ctor:" + name, ("EthAddr(%r).raw", v), raw, lambda: E(v).raw)
+  k.eq("eth-ctor:copy", ("EthAddr(EthAddr(%r)).raw", raw), raw, lambda: E(E(raw)).raw)
+  # pox's own short-group form (x:x:x:x:x:x): when it is accepted the value must be right; a rejection is not
+  # judged (no standard defines the form; pox rejects it when the text happens to be 12 characters long)
+  if short != colon:
+    k.evals += 1; k.calls += 1
+    try:
+      r = E(short).raw
+      if r != raw: k.bad("eth-ctor:short-groups", "EthAddr(%r).raw = %s, expected %s" % (short, r.hex(), raw.hex()))
+    except Exception:
+      k.obs.append("short-rej")
+  okk, a = k.get("eth-ctor:raw-bytes", ("EthAddr(%r)", raw), E, raw)
+  if not okk: return
+  d = "EthAddr(%r)" % (raw,)
+  k.eq("eth-observe:str", d + " str()", colon, str, a)
+  k.eq("eth-observe:repr", d + " repr()", "EthAddr('%s')" % colon, repr, a)
+  k.eq("eth-observe:toStr", d + ".toStr()", colon, a.toStr)
+  k.eq("eth-observe:to_str-sep", d + ".to_str('-')", hyph, a.to_str, "-")
+  k.eq("eth-observe:toStr-sep", d + ".toStr('')", bare, a.toStr, "")
+  k.eq("eth-observe:toRaw", d + ".toRaw()", raw, a.toRaw)
+  k.eq("eth-observe:toTuple", d + ".toTuple()", tuple(bs), a.toTuple)
+  k.eq("eth-observe:to_tuple", d + ".to_tuple()", tuple(bs), a.to_tuple)
+  k.eq("eth-observe:len", "len(%s)" % d, 6, len, a)
+  fl = R.eth_flags(bs)
+  for attr, want, call in (("isMulticast", fl["multicast"], True), ("is_multicast", fl["multicast"], False),
+                           ("isLocal", fl["local"], True), ("is_local", fl["local"], False),
+                           ("isGlobal", fl["glob"], True), ("is_global", fl["glob"], False),
+                           ("isBridgeFiltered", fl["bridge_filtered"], True), ("is_bridge_filtered", fl["bridge_filtered"], False),
+                           ("is_broadcast", fl["broadcast"], False)):
+    k.eq("eth-flag:" + attr, "%s.%s" % (d, attr), want, (lambda: getattr(a, attr)()) if call else (lambda: getattr(a, attr)))
+  okk, b = k.get("eth-roundtrip", "EthAddr(str(%s))" % d, lambda: E(str(a)))
+  if okk:
+    k.eq("eth-roundtrip", "EthAddr(str(a)).raw for a=%s" % d, raw, lambda: b.raw)
+    k.eq("eth-roundtrip:eq", "EthAddr(str(a)) == a for a=%s" % d, True, lambda: b == a)
+    k.eq("eth-roundtrip:hash", "hash(EthAddr(str(a))) == hash(a) for a=%s" % d, True, lambda: hash(b) == hash(a))
+
+SEGS["eth"] = (eth_parts, eth_cases, chk_eth)
+
+
+# ------------------------------------------------------------------------------------
+# datapath ids
+# ------------------------------------------------------------------------------------
+DP_Q = (0x00, 0x01, 0x80, 0xff)
+DP_T = (0x00, 0x01, 0x7f, 0x80, 0xff)
+
+def dpid_parts (th):
+  v = DP_T if th else DP_Q
+  return [[i, j] for i in range(len(v)) for j in range(len(v))]
+
+def dpid_cases (part, th):
+  v = DP_T if th else DP_Q
+  for rest in itertools.product(v, repeat=6):
+    d = 0
+    for x in (v[part[0]], v[part[1]]) + rest: d = (d << 8) | x
+    yield [d]
+
+def chk_dpid (case, k):
+  d = case[0]
+  short = R.dpid_text(d); long_ = R.dpid_text(d, True)
+  k.eq("dpid:to_str", ("dpid_to_str(0x%016x)", d), short, U.dpid_to_str, d)
+  k.eq("dpid:to_str-long", ("dpid_to_str(0x%016x, alwaysLong=True)", d), long_, U.dpid_to_str, d, alwaysLong=True)
+  k.eq("dpid:to_str-bytes", ("dpid_to_str(struct.pack('!Q', 0x%016x))", d), short, U.dpid_to_str, struct.pack("!Q", d))
+  k.eq("dpid:to_str", ("dpidToStr(0x%016x)", d), short, U.dpidToStr, d)
+  for name, text in (("canonical", short), ("long", long_), ("upper", short.upper()), ("0x-hex", "0x%x" % d), ("hex16", "%016x" % d)):
+    k.eq("dpid:from_str:" + name, ("str_to_dpid(%r)", text), d, U.str_to_dpid, text)
+  k.eq("dpid:roundtrip", ("str_to_dpid(dpid_to_str(0x%016x))", d), d, lambda: U.str_to_dpid(U.dpid_to_str(d)))
+  k.eq("dpid:roundtrip", ("str_to_dpid(dpid_to_str(0x%016x, alwaysLong=True))", d), d, lambda: U.strToDPID(U.dpid_to_str(d, alwaysLong=True)))
+
+SEGS["dpid"] = (dpid_parts, dpid_cases, chk_dpid)
+
+
+# ------------------------------------------------------------------------------------
+# algebraic laws: equality / hashing / ordering, immutability
+# ------------------------------------------------------------------------------------
+LAW_V4 = ["0.0.0.0", "0.0.0.1", "0.0.1.0", "0.1.0.0", "1.0.0.0", "1.0.0.2", "2.0.0.1", "1.2.3.4", "4.3.2.1", "127.0.0.1",
+          "127.255.255.255", "128.0.0.0", "128.0.0.1", "1.0.0.128", "192.168.0.1", "224.0.0.1", "255.0.0.0", "0.0.0.255",
+          "255.255.255.254", "255.255.255.255"]
+LAW_ETH = ["00:00:00:00:00:00", "00:00:00:00:00:01", "00:00:00:00:01:00", "01:00:00:00:00:00", "01:00:00:00:00:02", "02:00:00:00:00:01",
+           "01:80:c2:00:00:00", "01:80:c2:00:00:0f", "01:80:c2:00:00:10", "7f:ff:ff:ff:ff:ff", "80:00:00:00:00:00", "80:00:00:00:00:01",
+           "00:00:00:00:00:80", "00:11:22:33:44:55", "55:44:33:22:11:00", "0a:0b:0c:0d:0e:0f", "ff:00:00:00:00:00", "00:00:00:00:00:ff",
+           "ff:ff:ff:ff:ff:fe", "ff:ff:ff:ff:ff:ff"]
+LAW_V6 = ["::", "::1", "::1:0", "1::", "1::2", "2::1", "::ffff:1.2.3.4", "::ffff:4.3.2.1", "::1.2.3.4", "7fff:ffff:ffff:ffff:ffff:ffff:ffff:ffff",
+          "8000::", "8000::1", "::8000", "2001:db8::1", "2001:db8:0:0:1::1", "fe80::1", "ff02::1", "ff00::", "ffff:ffff:ffff:ffff:ffff:ffff:ffff:fffe",
+          "ffff:ffff:ffff:ffff:ffff:ffff:ffff:ffff"]
+LAW_TYPES = ("IPAddr", "EthAddr", "IPAddr6")
+
+def law_elem (tname, i):
+  """Element i (0..39) of the comparison set: value i//2 built through construction form i%2. -> (object, plain raw)"""
+  v = i // 2; alt = i % 2
+  if tname == "IPAddr":
+    n = int.from_bytes(bytes(int(x) for x in LAW_V4[v].split(".")), "big")
+    return (A.IPAddr(n) if alt else A.IPAddr(LAW_V4[v])), R.v4_raw(n)
+  if tname == "EthAddr":
+    raw = bytes(int(x, 16) for x in LAW_ETH[v].split(":"))
+    return (A.EthAddr(raw) if alt else A.EthAddr(LAW_ETH[v])), raw
+  n = R.v6_parse(LAW_V6[v])
+  return (A.IPAddr6.from_raw(R.v6_raw(n)) if alt else A.IPAddr6(R.v6_fmt(n, False, False))), R.v6_raw(n)
+
+def law_parts (th):
+  return [[t, "pair"] for t in LAW_TYPES] + [[t, "triple", i] for t in LAW_TYPES for i in range(0, 40, 4)] + [[t, "misc"] for t in LAW_TYPES]
+
+def law_cases (part, th):
+  t = part[0]
+  if part[1] == "pair":
+    for i in range(40):
+      for j in range(40): yield ["pair", t, i, j]
+  elif part[1] == "triple":
+    for i in range(part[2], part[2] + 4):
+      for j in range(40):
+        for l in range(40): yield ["triple", t, i, j, l]
+  else:
+    for i in range(40):
+      yield ["none", t, i]
+      yield ["immut", t, i]
+    yield ["container", t]
+
+def _cmp (k, clause, t, desc, f):
+  """A comparison must return a real bool."""
+  k.calls += 1
+  try:
+    r = f()
+  except Exception as e:
+    k.bad("compare:raises:%s:%s" % (site(e), t), "%s raised %s: %s" % (desc, type(e).__name__, e))
+    return None
+  if type(r) is not bool:
+    k.bad("compare:non-bool-result:" + t, "%s returned %r" % (desc, r))
+    return None
+  return r
+
+def chk_law (case, k):
+  kind, t = case[0], case[1]
+  if kind == "pair":
+    (a, ra), (b, rb) = law_elem(t, case[2]), law_elem(t, case[3])
+    if case[2] == case[3]: b = a
+    d = "a=%r, b=%r" % (a, b)
+    eq = _cmp(k, "eq", t, "a == b for " + d, lambda: a == b)
+    ne = _cmp(k, "ne", t, "a != b for " + d, lambda: a != b)
+    lt = _cmp(k, "lt", t, "a < b for " + d, lambda: a < b)
+    gt = _cmp(k, "gt", t, "a > b for " + d, lambda: a > b)
+    le = _cmp(k, "le", t, "a <= b for " + d, lambda: a <= b)
+    ge = _cmp(k, "ge", t, "a >= b for " + d, lambda: a >= b)
+    blt = _cmp(k, "lt", t, "b < a for " + d, lambda: b < a)
+    ble = _cmp(k, "le", t, "b <= a for " + d, lambda: b <= a)
+    res = (eq, ne, lt, gt, le, ge, blt, ble)
+    k.obs.append(res)
+    if None in res: return
+    k.evals += 7
+    if eq != (ra == rb): k.bad("compare:eq-value:" + t, "(a == b) is %s but the values are %s, for %s" % (eq, "equal" if ra == rb else "different", d))
+    if ne != (not eq): k.bad("compare:ne-negation:" + t, "(a != b) is %s while (a == b) is %s, for %s" % (ne, eq, d))
+    if (lt, eq, gt).count(True) != 1: k.bad("compare:trichotomy:" + t, "(a<b, a==b, a>b) = %r, for %s" % ((lt, eq, gt), d))
+    if le != (lt or eq): k.bad("compare:le-definition:" + t, "(a<=b) is %s but (a<b, a==b) = %r, for %s" % (le, (lt, eq), d))
+    if ge != (gt or eq): k.bad("compare:ge-definition:" + t, "(a>=b) is %s but (a>b, a==b) = %r, for %s" % (ge, (gt, eq), d))
+    if gt != blt or ge != ble: k.bad("compare:converse:" + t, "(a>b, b<a, a>=b, b<=a) = %r, for %s" % ((gt, blt, ge, ble), d))
+    if eq:
+      k.calls += 2
+      if hash(a) != hash(b): k.bad("compare:hash:" + t, "a == b but hash(a) != hash(b), for %s" % d)
+      if str(a) != str(b): k.bad("compare:eq-str:" + t, "a == b but str(a) != str(b), for %s" % d)
+  elif kind == "triple":
+    (a, ra), (b, rb), (c, rc) = law_elem(t, case[2]), law_elem(t, case[3]), law_elem(t, case[4])
+    d = "a=%r, b=%r, c=%r" % (a, b, c)
+    ab = _cmp(k, "lt", t, "a < b for " + d, lambda: a < b)
+    bc = _cmp(k, "lt", t, "b < c for " + d, lambda: b < c)
+    ac = _cmp(k, "lt", t, "a < c for " + d, lambda: a < c)
+    eab = _cmp(k, "eq", t, "a == b for " + d, lambda: a == b)
+    ebc = _cmp(k, "eq", t, "b == c for " + d, lambda: b == c)
+    eac = _cmp(k, "eq", t, "a == c for " + d, lambda: a == c)
+    res = (ab, bc, ac, eab, ebc, eac)
+    k.obs.append(res)
+    if None in res: return
+    k.evals += 3
+    if ab and bc and not ac: k.bad("compare:transitive-lt:" + t, "a<b and b<c but not a<c, for " + d)
+    if eab and ebc and not eac: k.bad("compare:transitive-eq:" + t, "a==b and b==c but not a==c, for " + d)
+    if (eab and bc and not ac) or (ab and ebc and not ac): k.bad("compare:order-respects-eq:" + t, "equal elements order differently, for " + d)
+  elif kind == "none":
+    a, ra = law_elem(t, case[2])
+    k.evals += 2; k.calls += 2
+    e = (a == None); n = (a != None)      # noqa: E711 - the operators are what is being checked
+    k.obs.append((e, n))
+    if e is True or n is False:
+      k.bad("compare:equals-None:" + t, "%r == None is %r and %r != None is %r" % (a, e, a, n))
+  elif kind == "immut":
+    a, ra = law_elem(t, case[2])
+    h = hash(a); s = str(a)
+    for attr in ("_value", "raw", "value", "x"):
+      k.evals += 1; k.calls += 1
+      try:
+        setattr(a, attr, ra[::-1] if attr != "x" else 1)
+        k.bad("immutable:setattr:" + t, "setting attribute %r on %s succeeded" % (attr, s))
+      except (TypeError, AttributeError):
+        pass
+      k.calls += 3
+      if a.raw != ra or hash(a) != h or str(a) != s:
+        k.bad("immutable:value-changed:" + t, "after setattr(%s, %r, ...) the address reads %s (raw %s)" % (s, attr, a, a.raw.hex()))
+    k.evals += 1
+    if type(a.raw) is not bytes: k.bad("immutable:raw-type:" + t, "%r.raw is a %s" % (a, type(a.raw).__name__))
+    # the address must not alias a mutable object it was built from
+    buf = bytearray(ra)
+    b = {"IPAddr": A.IPAddr, "EthAddr": A.EthAddr, "IPAddr6": A.IPAddr6}[t](buf)
+    buf[0] ^= 0xff
+    k.evals += 1; k.calls += 2
+    if b.raw != ra: k.bad("immutable:aliases-input:" + t, "%s built from a bytearray changed when the bytearray was modified" % t)
+    k.obs.append(s)
+  elif kind == "container":
+    objs = [law_elem(t, i) for i in range(40)]
+    k.evals += 3; k.calls += 1
+    st = set(o for o, r in objs)
+    if len(st) != 20: k.bad("compare:container:" + t, "a set of 20 distinct values built twice each has %d members" % len(st))
+    dct = dict((o, r) for o, r in objs)
+    for i in range(40):
+      o, r = law_elem(t, i); k.calls += 1
+      if dct.get(o) != r: k.bad("compare:container:" + t, "dict lookup with an equal %s key failed for %s" % (t, o))
+    srt = sorted(o for o, r in objs); k.calls += 40
+    for x, y in zip(srt, srt[1:]):
+      if y < x: k.bad("compare:container:" + t, "sorted() output is not ordered: %s before %s" % (x, y))
+    k.obs.append([str(x) for x in srt])
+
+SEGS["law"] = (law_parts, law_cases, chk_law)
+
+
+# ------------------------------------------------------------------------------------
+# driver
+# ------------------------------------------------------------------------------------
+SEG_ORDER = ["v4ctor", "v4net", "v6val", "v6net", "v6text", "bad", "eth", "dpid", "law"]
+
+def _worker (item):
+  seg, part, th = item
+  _import()
+  parts, cases, check = SEGS[seg]
+  rep = Report(PID, "exploration")
+  ncases = 0
+  for case in cases(part, th):
+    k = K()
+    try:
+      check(case, k)
+    except Exception as e:
+      rep.error("%s case %r: harness raised %s: %s" % (seg, case, type(e).__name__, e))
+      continue
+    ncases += 1
+    rep.evaluations += k.evals
+    rep.transitions += k.calls
+    rep.outcome((seg, k.obs))
+    for key, what in k.viol:
+      rep.violation(key, what, dict(seg=seg, case=case))
+    if ncases == 1 and (part == parts(th)[0] or part == parts(th)[-1]):
+      rep.sample(dict(segment=seg, case=case, observed=[repr(x)[:80] for x in k.obs[:8]], failed_clauses=[v[0] for v in k.viol][:4]))
+  rep.state_count = ncases
+  rep.extra["cases_" + seg] = ncases
+  return rep
+
+
+def run (cfg):
+  _import()
+  th = not cfg.quick
+  rep = Report(PID, "exploration")
+  for msg in R.self_test():
+    rep.error("reference self-test: " + msg)
+  segs = [s for s in SEG_ORDER if cfg.only in (None, s)]
+  items = [(s, p, th) for s in segs for p in SEGS[s][0](th)]
+  for r in pmap(_worker, items, cfg.workers, seed=cfg.seed):
+    rep.merge(r)
+  rep.samples.sort(key=lambda s: repr(s))
+  rep.rule = (
+    "every case of these lattices, each run against the real classes and compared with stdlib ipaddress / integer arithmetic / RFC 5952 printer: "
+    "IPv4: %d^4 addresses (octets %s) x 10 constructor forms x all observers; the same lattice (thorough: octets %s) x all 33 prefix lengths x "
+    "{inNetwork in 5 call forms for the own network and 6-8 other networks, get_network by bits and by mask, parse_cidr by bits/mask/allow_host/host-bits, "
+    "cidr_to_netmask, netmask_to_cidr, classful inference}; IPv6: %s x {every legal '::' placement, full/padded/upper/mixed text, 6 binary forms, to_str in 12 "
+    "option combinations and re-parse, well-known ranges} and x all 129 prefix lengths x {in_network in 5 call forms, other networks, parse_cidr, mask conversions}; "
+    "IPv6 text grammar: every string of 0..9 groups over %s with '::' at each position or absent, with and without an IPv4 tail (accept/reject and value vs "
+    "ipaddress); enumerated malformed texts / lengths / types for all three address types, CIDR strings and dpids (must raise); EthAddr: %s x 13 textual/binary "
+    "forms + short-group form, all flag predicates; dpid: every id with bytes in %s, 4 printers x 5 accepted spellings; comparison laws over all ordered pairs "
+    "and triples of a 40-element set (20 values x 2 construction forms) per type, ==None, setattr, container behaviour. distinct = digests of the per-case "
+    "observation vectors"
+    % (len(OCT_T_CTOR if th else OCT_Q), (OCT_T_CTOR if th else OCT_Q), (OCT_T_NET if th else OCT_Q),
+       ("3^8 group vectors over {0,1,abcd} + 256 zero/non-zero patterns x {ffff,0db8} + %d hand-picked" % len(V6_EXTRA)) if th else
+       ("256 zero/non-zero group patterns x {1,abcd,ffff} + %d hand-picked" % len(V6_EXTRA)),
+       (TOK_T if th else TOK_Q),
+       ("first byte 0..255 x last byte 0..255 x 2 middles + {00,01,0f,10,80,ff}^6" if th else
+        "first byte 0..255, last byte 0..255 (each with 2 fixed remainders), {00,0a,10,ff}^6, near-misses of 01:80:c2:00:00:0x"),
+       list(DP_T if th else DP_Q)))
+  rep.bound = dict(tier=cfg.tier, ipv4_octets=len(OCT_T_CTOR if th else OCT_Q), prefix_lengths_v4=33, prefix_lengths_v6=129,
+                   ipv6_text_groups_max=9, ipv6_text_tokens=len(TOK_T if th else TOK_Q), compare_set=40,
+                   cases=dict((s, rep.extra.get("cases_" + s, 0)) for s in segs))
+  rep.assumptions = [
+    "little-endian host: 'network order' integers are the 4 address bytes read as a native uint32 (sys.byteorder is used, not assumed)",
+    "forms that inet_aton accepts by tradition (fewer than 4 parts, octal/hex parts) are not called malformed for IPv4 text; they are for the dotted tail of IPv6 text (RFC 4291 requires d.d.d.d)",
+    "cross-type equality (address == str/int/other family) is a documented convenience and not judged; == None is judged",
+    "ordering is only required to be a total order consistent with ==; numeric order of IPAddr is not demanded",
+    "pox's short-group Ethernet text (x:x:x:x:x:x) is judged for value only when accepted",
+  ]
+  return rep
+
+
+def replay (cfg, data):
+  _import()
+  seg, case = data["seg"], data["case"]
+  k = K()
+  SEGS[seg][2](case, k)
+  lines = ["segment %s, case %r" % (seg, case), "calls into pox: %d, oracle clauses evaluated: %d" % (k.calls, k.evals)]
+  for key, what in k.viol:
+    lines.append("  FAILED %s: %s" % (key, what))
+  if not k.viol: lines.append("  all clauses hold")
+  return bool(k.viol), "\n".join(lines)
